@@ -215,22 +215,25 @@ def replay_inputs(unit, inputs):
 
 
 def bounded_unit(unit, seed, seconds=15.0):
+    """Native stand-in for a unit whose obligations are undecided; runs in a guarded child process (time and memory limits)."""
     if unit.kind == "lemma":
-        r = native.bounded_lemma(unit.lemma, seed, seconds=seconds)
-        if r.get("fail"):
-            r["fail"] = r["fail"].as_dict()
-        return r
+        return native.guarded(_bl, (unit.lemma, seed, seconds), seconds)
     if unit.kind == "function":
-        from .nativefn import bounded_contract
-
-        try:
-            r = bounded_contract(unit.contract, seed, seconds=seconds)
-        except Exception as e:
-            return {"ran": False, "reason": "bounded runner error %r" % (e,), "evaluations": 0, "fail": None}
-        if r.get("fail"):
-            r["fail"] = r["fail"].as_dict()
-        return r
+        return native.guarded(_bc, (unit.contract, seed, seconds), seconds)
     return None
+
+
+def _bl(lem, seed, seconds):
+    return native.bounded_lemma(lem, seed, seconds=seconds)
+
+
+def _bc(contract, seed, seconds):
+    from .nativefn import bounded_contract
+
+    try:
+        return bounded_contract(contract, seed, seconds=seconds)
+    except Exception as e:
+        return {"ran": False, "reason": "bounded runner error %r" % (e,), "evaluations": 0, "fail": None}
 
 
 def matches_known(known, pid, v):
@@ -539,7 +542,14 @@ def vacuity_checks(rep, ulist):
         if v is None:
             continue
         if v[1] == "unsat":
-            raise CheckerError("vacuity: hypotheses of %s are contradictory (precondition/axioms/invariants unsatisfiable)" % v[0])
+            # contradictory hypotheses at an exit.  If every obligation of the unit is discharged this would be a vacuous 'proof' (a contract or
+            # axiom problem: checker error).  If the unit has undischarged obligations anyway (e.g. an invariant that no longer holds on entry
+            # because the code changed) the contradiction is a consequence of that failure and the unit is simply not proved.
+            failing = [o.id for o in u.obls if rep.results.get(o.id, {}).get("status") != "unsat"]
+            if not failing and not u.error:
+                raise CheckerError("vacuity: hypotheses of %s are contradictory (precondition/axioms/invariants unsatisfiable)" % v[0])
+            notes.append((u.unit, "contradictory hypotheses at an exit, explained by %d undischarged obligation(s) of the same unit" % len(failing)))
+            continue
         notes.append((u.unit, v[1]))
     rep.vacuity = notes
 
@@ -590,6 +600,22 @@ def finish(rep, ulist, level_if_all, coverage_extra, assumptions, checker_cmd, t
                     seen_known.add(k["id"])
                     rep.known.append(k["id"])
                     rep.say("KNOWN-FINDING: property=%s %s" % (rep.pid, k["what"]))
+                continue
+            is_inv = o.kind.startswith("loop") and o.kind.endswith((".init", ".preserve"))
+            broken_structure = any(x.kind.startswith("loop") and x.kind.endswith((".init", ".preserve")) and rep.results[x.id]["status"] != "unsat" for x in u.obls)
+            if not v.get("replayed") and (is_inv or broken_structure):
+                # A loop invariant is a proof artifact, not a clause of the property: a counter-model for its initialisation or preservation
+                # that neither replays on the real code nor is confirmed by the native search of the function's contract says that THIS
+                # invariant does not fit THIS loop any more (e.g. a for loop rewritten as a while loop with another counter convention) -
+                # the proof is lost, nothing is shown to be wrong.  Undecided, like a solver 'unknown'.
+                # The same holds for the other obligations of a unit one of whose loop invariants is not established: what is derived after that
+                # loop rests on an invariant that no longer describes it, so their counter-models are artefacts of the lost proof.
+                why = ("loop invariant no longer established" if is_inv else "a loop invariant of this function is no longer established, so this counter-model "
+                       "is an artefact of the lost proof")
+                rep.unproved.append({"obligation": o.id, "clause": o.text, "reason": why + "; the counter-model does not replay on the real code and the native search "
+                                     "of the contract found no failing input", "bounded": _strip(v.get("bounded_search"))})
+                rep.say("UNPROVED obligation=%s reason=%s (counter-model does not replay) bounded-check=%s"
+                        % (o.id, why[:60], "passed" if (v.get("bounded_search") or {}).get("ran") else "not-run"))
                 continue
             path = write_replay(rep, o.id, v)
             v["replay"] = path
